@@ -148,6 +148,10 @@ func (e *Env) DrawC10(rt *rapid.T) C10Case {
 					continue
 				}
 				b := rc.CanonBytes(a.Type, rc.DrawValue(rt, a.Type, lim, 0, "in."+a.Name))
+				if c.Proto == "udp" && len(b) > 8000 {
+					// the request has to fit into one datagram as well
+					b = rc.CanonBytes(a.Type, rc.Zero(a.Type))
+				}
 				r.Ins = append(r.Ins, b)
 				key.Write(b)
 				key.WriteByte('|')
@@ -159,6 +163,18 @@ func (e *Env) DrawC10(rt *rapid.T) C10Case {
 				// outcomes must be representable in every version that may carry them
 				olim := rc.Limits{MaxStr: 24, MaxElems: 3, ASCII: true, Finite: true, BigStr: c.Proto == "tcp" && rapid.IntRange(0, 3).Draw(rt, "bigout") == 0}
 				r.Outcome = e.DrawOutcome(rt, f, olim, true)
+				if c.Proto == "udp" {
+					// a reply has to fit into one datagram (65507 bytes; the TUP form carries the
+					// values twice): outcomes of more than 20000 bytes are replaced by an error
+					// outcome, whose reply is small
+					size := len(r.Outcome.Ret)
+					for _, o := range r.Outcome.Outs {
+						size += len(o)
+					}
+					if size > 20000 {
+						r.Outcome = Outcome{ErrKind: 2, ErrCode: 1, ErrMsg: "value too large for a datagram"}
+					}
+				}
 				switch c.Scenario {
 				case "queue-timeout":
 					if i == 0 {
